@@ -4,6 +4,7 @@ import (
 	"bytes"
 	"encoding/json"
 	"fmt"
+	"math"
 	"os"
 	"path/filepath"
 	"testing"
@@ -91,11 +92,11 @@ func c11Range(c C11Case, p *c11Pre, from, to int, small bool) (msg string, nontr
 	lo, hi := 0, len(p.data)
 	if from > 0 {
 		extra["from"] = from
-		lo = min(len(p.data), (from-1)*bs)
+		lo = min(len(p.data), (min(from, p.nblocks+2)-1)*bs) // clamped before multiplying: bounds may be huge
 	}
 	if to > 0 {
 		extra["to"] = to
-		hi = min(len(p.data), (to-1)*bs)
+		hi = min(len(p.data), (min(to, p.nblocks+2)-1)*bs)
 	}
 	if hi < lo {
 		hi = lo
@@ -186,7 +187,9 @@ func c11Sweep(r *vrt.Run, c C11Case) (string, C11Case) {
 	for t := 1; t <= p.nblocks+3; t++ {
 		ranges = append(ranges, rg{0, t})
 	}
-	ranges = append(ranges, rg{p.nblocks + 70, p.nblocks + 90}, rg{1, 1 << 30})
+	// "to the end" spelled as a huge bound (callers write math.MaxInt32, 1<<40, math.MaxInt), and ranges far beyond the end
+	ranges = append(ranges, rg{p.nblocks + 70, p.nblocks + 90}, rg{1, 1 << 30}, rg{2, 1<<31 - 1}, rg{1, 1 << 31}, rg{2, 1 << 32}, rg{1, 1 << 40},
+		rg{max(1, p.nblocks-1), math.MaxInt}, rg{1 << 31, 1 << 33}, rg{1 << 40, 0})
 	for _, x := range ranges {
 		r.Tick()
 		msg, nt := c11Range(c, p, x.f, x.t, true)
